@@ -73,6 +73,11 @@ class Sys(e2.DevSys):
         else:
             self.minor = 7
             for i in range(1, self.ninst + 1):
+                # an earlier description of the same ids with another endpoint was turned into offer entries in
+                # this process (the configuration before a reconfiguration): must not matter
+                old = (hdr.IPv4EndpointOption(ipaddress.IPv4Address("192.0.2.200"), hdr.L4Protocols.TCP, 20501),)
+                for ttl in (self.t.ANNOUNCE_TTL, 3, 0):
+                    cfg_.Service(self.sid, i, 1, 7, options_1=old, eventgroups=frozenset({5})).create_offer_entry(ttl)
                 inst = sd.ServiceInstance(cfg_.Service(self.sid, i, 1, 7, options_1=self.opts,
                                                        eventgroups=frozenset({5})),
                                           sd.ServerServiceListener(), self.prot.announcer, self.t)
